@@ -1121,10 +1121,27 @@ func (data *Data) UserPrivilege(name, database string) (*influxql.Privilege, err
 func (data *Data) Clone() *Data {
 	other := *data
 
+	// The node lists are modified in place (CreateDataNode sorts, SetMetaNode and
+	// UpdateDataNode assign through the slice), so the copy must not share their
+	// backing arrays with data: data may be a published value or a pending snapshot.
+	other.MetaNodes = cloneNodeInfos(data.MetaNodes)
+	other.DataNodes = cloneNodeInfos(data.DataNodes)
 	other.Databases = data.CloneDatabases()
 	other.Users = data.CloneUsers()
 
 	return &other
+}
+
+// cloneNodeInfos returns a copy of nodes backed by a new array.
+func cloneNodeInfos(nodes []NodeInfo) []NodeInfo {
+	if nodes == nil {
+		return nil
+	}
+	other := make([]NodeInfo, len(nodes))
+	for i := range nodes {
+		other[i] = nodes[i].clone()
+	}
+	return other
 }
 
 // marshal serializes to a protobuf representation.
